@@ -10,6 +10,7 @@ import sympy as sp
 
 from ..core import AnalysisError, call_name, unparse, walk_no_nested
 from ..dsl import ELEM, EQ, LE, LT, Dsl
+from ..pattern import _parse, body_is, find, find_expr, has, has_expr, m_node
 from ..report import Ctx
 from ..sym import equal
 
@@ -80,15 +81,26 @@ def run(ctx: Ctx) -> None:
     ok = [unparse(s_) for s_ in lr.body] == ['return exp(loglikelihoodregression(meas, model, sigma))']
     ctx.add('C17.R5', 'likelihoodregression', ok, lr, 'likelihood = exp(log likelihood) with the same arguments' if ok else 'likelihoodregression is no longer exp(loglikelihoodregression(meas, model, sigma))', 'twin')
     ml = prog.func('loglikelihood', 'mixedloglikelihood')
-    ok = [unparse(s_) for s_ in ml.body] == ['ell = MonteCarlo(prob)', 'return log(ell)']
+    ok = body_is(ml.body, "_L = MonteCarlo(prob)\nreturn log(_L)") is not None or body_is(ml.body, "return log(MonteCarlo(prob))") is not None
     ctx.add('C17.R5', 'mixedloglikelihood', ok, ml, 'log of the Monte-Carlo mean of the probability' if ok else 'mixedloglikelihood changed', 'mixed')
     ctx.floor('C17.R5', 8)
 
     # Box-Cox
     bc = dsl('models.boxcox', 'boxcox')
     xx, ell = bc.env['x'], bc.env['ell']
-    reg, mac, cz = bc.env.get('regular'), bc.env.get('mclaurin'), bc.env.get('close_to_zero')
-    ctx.need(reg is not None and mac is not None and cz is not None, 'boxcox defines regular, mclaurin, close_to_zero')
+    # the structure is read off the returned selection: Elem({0: Elem({0: regular, 1: series}, switch), 1: 0}, x == 0)
+    reg = mac = cz = smooth = None
+    r = bc.ret
+    if getattr(r, 'func', None) == ELEM and len(r.args) == 5:
+        items = {r.args[1]: r.args[2], r.args[3]: r.args[4]}
+        inner = items.get(sp.Integer(0))
+        if getattr(inner, 'func', None) == ELEM and len(inner.args) == 5:
+            smooth = inner
+            cz = inner.args[0]
+            it2 = {inner.args[1]: inner.args[2], inner.args[3]: inner.args[4]}
+            reg, mac = it2.get(sp.Integer(0)), it2.get(sp.Integer(1))
+    if reg is None or mac is None or cz is None:
+        raise AnalysisError(f'C17: anchor missing: boxcox no longer returns Elem({{0: Elem({{0: regular, 1: series}}, switch), 1: 0}}, x == 0): {r}')
     ok = _same(reg, (xx**ell - 1) / ell)
     ctx.add('C17.R2', 'boxcox:regular', ok, bc.f, f'regular branch = {reg}' + ('' if ok else ' ; expected (x^l - 1)/l'), str(reg))
     Lx = sp.Symbol('Lx', real=True)
@@ -99,70 +111,162 @@ def run(ctx: Ctx) -> None:
     eps = sp.Rational(1, 100000)
     ok = _same(cz, LT(ell, eps) * LT(-eps, ell))
     ctx.add('C17.R2', 'boxcox:switch', ok, bc.f, f'switch = {cz}' + ('' if ok else ' ; expected the symmetric interval |l| < 1e-5'), str(cz))
-    smooth = bc.env.get('smooth')
     ok = smooth is not None and smooth == ELEM(cz, 0, reg, 1, mac) and bc.ret == ELEM(EQ(xx, 0), 0, smooth, 1, 0)
     ctx.add('C17.R2', 'boxcox:selection', ok, bc.f, 'series iff close to zero; 0 iff x = 0' if ok else f'selection of the branches changed: {bc.ret}', str(bc.ret))
 
     # piecewise
     pv = prog.func('models.piecewise', 'piecewise_variables')
-    t = unparse(pv.node)
-    pats = [
-        ('first', 'b = thresholds[1] - thresholds[0]\n        results = [bioMax(Numeric(0), bioMin(variable - thresholds[0], b))]'),
-        ('first-open', 'if thresholds[0] is None:\n        results = [bioMin(variable, thresholds[1])]'),
-        ('middle', 'for i in range(1, eye - 2):\n        b = thresholds[i + 1] - thresholds[i]\n        results += [bioMax(Numeric(0), bioMin(variable - thresholds[i], b))]'),
-        ('last-open', 'if thresholds[-1] is None:\n        results += [bioMax(0, variable - thresholds[-2])]'),
-        ('last', 'b = thresholds[-1] - thresholds[-2]\n        results += [bioMax(Numeric(0), bioMin(variable - thresholds[-2], b))]'),
-    ]
-    for what, pat in pats:
-        ok = pat in t
+    SEG = 'bioMax(Numeric(0), bioMin(variable - thresholds[{lo}], {w}))'
+    b = find(pv.node, f"""
+if thresholds[0] is None:
+    _R = [bioMin(variable, thresholds[1])]
+else:
+    _B = thresholds[1] - thresholds[0]
+    _R = [{SEG.format(lo='0', w='_B')}]
+for _I in range(1, _N - 2):
+    _B = thresholds[_I + 1] - thresholds[_I]
+    _R += [{SEG.format(lo='_I', w='_B')}]
+if thresholds[-1] is None:
+    _R += [bioMax(0, variable - thresholds[-2])]
+else:
+    _B = thresholds[-1] - thresholds[-2]
+    _R += [{SEG.format(lo='-2', w='_B')}]
+return _R
+""")
+    parts = {
+        'first': "if thresholds[0] is None:\n    ___\nelse:\n    _B = thresholds[1] - thresholds[0]\n    _R = [" + SEG.format(lo='0', w='_B') + "]",
+        'first-open': "if thresholds[0] is None:\n    _R = [bioMin(variable, thresholds[1])]\nelse:\n    ___",
+        'middle': "for _I in range(1, _N - 2):\n    _B = thresholds[_I + 1] - thresholds[_I]\n    _R += [" + SEG.format(lo='_I', w='_B') + "]",
+        'last-open': "if thresholds[-1] is None:\n    _R += [bioMax(0, variable - thresholds[-2])]\nelse:\n    ___",
+        'last': "if thresholds[-1] is None:\n    ___\nelse:\n    _B = thresholds[-1] - thresholds[-2]\n    _R += [" + SEG.format(lo='-2', w='_B') + "]",
+    }
+    nlen = find(pv.node, '_N = len(thresholds)')
+    for what, pat in parts.items():
+        ok = has(pv.node, pat) and nlen is not None
         ctx.add('C17.R6', f'piecewise_variables:{what}', ok, pv, f'{what} segment is max(0, min(x - t_i, t_i+1 - t_i)) (open ends handled)' if ok else f'the {what} segment of piecewise_variables changed', what)
+    ok = b is not None and nlen is not None and b['_N'] == nlen['_N']
+    ctx.add('C17.R6', 'piecewise_variables:order', ok, pv, 'first, middle (1 .. n-3) and last segments are appended in this order to the returned list' if ok else 'the segments of piecewise_variables are no longer assembled first / middle / last into the returned list', 'order')
     pf = prog.func('models.piecewise', 'piecewise_formula')
-    t = unparse(pf.node)
-    ok = 'the_vars = piecewise_variables(the_variable, thresholds)' in t and 'terms = [beta * the_vars[i] for i, beta in enumerate(betas)]' in t and 'return bioMultSum(terms)' in t and 'if len(betas) != eye - 1:' in t
+    b = find(pf.node, """
+_N = len(thresholds)
+___
+if betas is not None:
+    if len(betas) != _N - 1:
+        ___
+        raise BiogemeError(__MSG)
+_VARS = piecewise_variables(_V, thresholds)
+___
+_TERMS = __COMP
+return bioMultSum(_TERMS)
+""")
+    ok = b is not None and m_node(_parse(f'[_B * {b["_VARS"]}[_I] for _I, _B in enumerate(betas)]')[0].value, b['__COMP'][1], {})
     ctx.add('C17.R6', 'piecewise_formula', ok, pf, 'sum over segments of beta_i times variable i' if ok else 'piecewise_formula changed', 'formula')
     pfn = prog.func('models.piecewise', 'piecewise_function')
-    rest = [n for n in pfn.body if isinstance(n, ast.Assign) and unparse(n.targets[0]) == 'rest']
-    ctx.need(len(rest) == 1, 'piecewise_function initialises the remaining distance once')
-    rv = unparse(rest[0].value).replace(' ', '')
-    ok = rv in ('xifthresholds[0]isNoneelsex-thresholds[0]', 'x-thresholds[0]ifthresholds[0]isnotNoneelsex', 'x-(0ifthresholds[0]isNoneelsethresholds[0])')
-    if not ok and rv != 'x':
-        raise AnalysisError(f'C17.R6: initialisation of `rest` in piecewise_function not recognised: {rv}')
-    ctx.add('C17.R6', 'piecewise_function:first-segment', ok, (pfn.file, rest[0].lineno), 'the first segment is measured from the first threshold' if ok else 'rest = x: with a first threshold t0 != 0 the first segment is x instead of x - t0 (differs from piecewise_formula)', rv)
-    t = unparse(pfn.node)
-    ok = 'total += v * (thresholds[i + 1] - (0 if thresholds[i] is None else thresholds[i]))' in t and 'rest = x - thresholds[i + 1]' in t and 'if x < thresholds[i + 1]:\n            total += v * rest\n            return total' in t
-    ctx.add('C17.R6', 'piecewise_function:segments', ok, pfn, 'full segments contribute beta_i (t_i+1 - t_i), the last reached one beta_i times the remaining distance' if ok else 'accumulation in piecewise_function changed', 'segments')
+    LOOP = """
+_T = 0
+for _I, _V in enumerate(betas):
+    if thresholds[_I + 1] is None:
+        _T += _V * _REST
+        return _T
+    if x < thresholds[_I + 1]:
+        _T += _V * _REST
+        return _T
+    _T += _V * (thresholds[_I + 1] - (0 if thresholds[_I] is None else thresholds[_I]))
+    _REST = x - thresholds[_I + 1]
+return _T
+"""
+    b = find(pfn.node, "_REST = __INIT\n" + LOOP)
+    rest = [n for n in pfn.body if b is not None and isinstance(n, ast.Assign) and unparse(n.targets[0]) == b['_REST']]
+    if b is None:
+        ctx.add('C17.R6', 'piecewise_function:segments', False, pfn, 'accumulation in piecewise_function changed', 'segments')
+        rest = []
+    else:
+        ctx.add('C17.R6', 'piecewise_function:segments', True, pfn, 'full segments contribute beta_i (t_i+1 - t_i), the last reached one beta_i times the remaining distance', 'segments')
+    ctx.need(len(rest) == 1 or b is None, 'piecewise_function initialises the remaining distance once')
+    if rest:
+        rv = unparse(rest[0].value).replace(' ', '')
+        ok = rv in ('xifthresholds[0]isNoneelsex-thresholds[0]', 'x-thresholds[0]ifthresholds[0]isnotNoneelsex', 'x-(0ifthresholds[0]isNoneelsethresholds[0])')
+        if not ok and rv != 'x':
+            raise AnalysisError(f'C17.R6: initialisation of the remaining distance in piecewise_function not recognised: {rv}')
+        ctx.add('C17.R6', 'piecewise_function:first-segment', ok, (pfn.file, rest[0].lineno), 'the first segment is measured from the first threshold' if ok else 'rest = x: with a first threshold t0 != 0 the first segment is x instead of x - t0 (differs from piecewise_formula)', rv)
 
     # segmentation twins
     S = prog.cls('segmentation', 'OneSegmentation')
     be, bcod = S.methods['beta_expression'], S.methods['beta_code']
-    te, tc = unparse(be.node), unparse(bcod.node)
-    bounds = 'if category == self.reference:\n        lower_bound = self.beta.lb\n        upper_bound = self.beta.ub\n    else:\n        lower_bound = None\n        upper_bound = None'
-    ok = bounds in te and bounds in tc and 'name = self.beta_name(category)' in te and 'name = self.beta_name(category)' in tc
-    ok = ok and 'return Beta(name, self.beta.initValue, lower_bound, upper_bound, self.beta.status)' in te
-    ok = ok and '''f"Beta('{name}', {self.beta.initValue}, {lower_bound}, {upper_bound}, {self.beta.status})"''' in tc and '''f"{name} = Beta('{name}', {self.beta.initValue}, {lower_bound}, {upper_bound}, {self.beta.status})"''' in tc
+    BOUNDS = """
+if category == self.reference:
+    _LB = self.beta.lb
+    _UB = self.beta.ub
+else:
+    _LB = None
+    _UB = None
+"""
+    NAME = "_NAME = self.beta_name(category)\n"
+    b1 = body_is(be.body, NAME + BOUNDS + "return Beta(_NAME, self.beta.initValue, _LB, _UB, self.beta.status)") or body_is(be.body, BOUNDS + NAME + "return Beta(_NAME, self.beta.initValue, _LB, _UB, self.beta.status)")
+    CODE = """
+if assignment:
+    return f"{_NAME} = Beta('{_NAME}', {self.beta.initValue}, {_LB}, {_UB}, {self.beta.status})"
+return f"Beta('{_NAME}', {self.beta.initValue}, {_LB}, {_UB}, {self.beta.status})"
+"""
+    b2 = body_is(bcod.body, BOUNDS + NAME + CODE) or body_is(bcod.body, NAME + BOUNDS + CODE)
+    ok = b1 is not None and b2 is not None
     ctx.add('C17.R3', 'OneSegmentation.beta_expression/beta_code', ok, bcod, 'code and expression build the same Beta(name, value, bounds, status)' if ok else 'beta_code no longer mirrors beta_expression', 'beta')
     le, lc = S.methods['list_of_expressions'], S.methods['list_of_code']
-    ok = 'self.beta_expression(category) * (self.variable == Numeric(value)) for value, category in self.mapping.items()' in unparse(le.node)
-    ok = ok and '''f"{self.beta_name(category)} * (Variable('{self.variable.name}') == {value})" for value, category in self.mapping.items()''' in unparse(lc.node)
+    ok = has_expr(le.node, '[self.beta_expression(_C) * (self.variable == Numeric(_V)) for _V, _C in self.mapping.items()]')
+    ok = ok and has_expr(lc.node, '''[f"{self.beta_name(_C)} * (Variable('{self.variable.name}') == {_V})" for _V, _C in self.mapping.items()]''')
+    ok = ok and all(len([n for n in walk_no_nested(m.node) if isinstance(n, ast.Return)]) == 1 for m in (le, lc))
     ctx.add('C17.R3', 'OneSegmentation.list_of_expressions/list_of_code', ok, lc, 'one term per non-reference category: its shift times the indicator of its value' if ok else 'list_of_code no longer mirrors list_of_expressions', 'terms')
     oi = S.methods['__init__']
-    ok = 'k: v for k, v in segmentation_tuple.mapping.items() if v != self.reference' in unparse(oi.node)
+    ok = has(oi.node, 'self.mapping = {_K: _V for _K, _V in segmentation_tuple.mapping.items() if _V != self.reference}')
     ctx.add('C17.R3', 'OneSegmentation.__init__', ok, oi, 'the reference category carries no shift' if ok else 'the reference category is no longer excluded', 'ref')
     G = prog.cls('segmentation', 'Segmentation')
     sb, sc = G.methods['segmented_beta'], G.methods['segmented_code']
-    tb, tcode = unparse(sb.node), unparse(sc.node)
-    ok = 'ref_beta = Beta(name=self.beta.name, value=self.beta.initValue, lowerbound=self.beta.lb, upperbound=self.beta.ub, status=self.beta.status)' in tb and 'terms = [ref_beta]' in tb
-    ok = ok and 'terms += [element for s in self.segmentations for element in s.list_of_expressions()]' in tb and 'return bioMultSum(terms)' in tb
-    ok = ok and 'terms = [self.beta_code()]' in tcode and 'terms += [element for s in self.segmentations for element in s.list_of_code()]' in tcode and "bioMultSum([{joined_terms}])" in tcode
+    ok = body_is(sb.body, """
+_REF = Beta(name=self.beta.name, value=self.beta.initValue, lowerbound=self.beta.lb, upperbound=self.beta.ub, status=self.beta.status)
+_T = [_REF]
+_T += __COMP
+return bioMultSum(_T)
+""")
+    ok = ok is not None and m_node(_parse('[_E for _S in self.segmentations for _E in _S.list_of_expressions()]')[0].value, ok['__COMP'][1], {})
+    b = body_is(sc.body, """
+_RES = __DEFS
+_RES += '\\n'
+_T = [self.beta_code()]
+_T += __COMP
+if len(_T) == 1:
+    _RES += _T[0]
+else:
+    _J = ', '.join(_T)
+    _RES += f'{self.prefix}_{self.beta.name} = bioMultSum([{_J}])'
+return _RES
+""")
+    ok = ok and b is not None and m_node(_parse('[_E for _S in self.segmentations for _E in _S.list_of_code()]')[0].value, b['__COMP'][1], {})
+    ok = ok and m_node(_parse("'\\n'.join([_S.beta_code(_C, assignment=True) for _S in self.segmentations for _C in _S.mapping.values()])")[0].value, b['__DEFS'][1], {})
     gb = G.methods['beta_code']
-    ok = ok and "f'Beta({beta_name}, {self.beta.initValue}, {self.beta.lb}, {self.beta.ub}, {self.beta.status})'" in unparse(gb.node)
+    ok = ok and (body_is(gb.body, """
+_N = f"'{self.beta.name}'"
+return f'Beta({_N}, {self.beta.initValue}, {self.beta.lb}, {self.beta.ub}, {self.beta.status})'
+""") is not None)
     ctx.add('C17.R3', 'Segmentation.segmented_beta/segmented_code', ok, sc, 'reference value plus the shifts of every segmentation, in the same order, in code and expression' if ok else 'segmented_code no longer mirrors segmented_beta', 'segmented')
     # correlation
     cr = prog.func('nests', 'NestsForNestedLogit.correlation')
-    t = unparse(cr.node)
-    ok = 'correlation = np.identity(nbr_of_alternatives)' in t and 'for i, j in itertools.combinations(alt_m, 2):' in t and 'alt_m = m.list_of_alternatives' in t
-    ok = ok and 'correlation[index[i]][index[j]] = correlation[index[j]][index[i]] = 1.0 - 1.0 / (mu_m * mu_m) if mu == 1.0 else 1.0 - mu * mu / (mu_m * mu_m)' in t
-    ok = ok and 'index = {alt: i for i, alt in enumerate(self.choice_set)}' in t
+    b = body_is(cr.body, """
+_IDX = __INDEX
+_N = len(self.choice_set)
+___
+_C = np.identity(_N)
+for _M in self.tuple_of_nests:
+    if isinstance(_M.nest_param, Expression):
+        ___
+        _MU = _M.nest_param.get_value_c(prepare_ids=True)
+    else:
+        _MU = _M.nest_param
+    _ALTS = _M.list_of_alternatives
+    for _I, _J in itertools.combinations(_ALTS, 2):
+        _C[_IDX[_I]][_IDX[_J]] = _C[_IDX[_J]][_IDX[_I]] = 1.0 - 1.0 / (_MU * _MU) if mu == 1.0 else 1.0 - mu * mu / (_MU * _MU)
+return pd.DataFrame(_C, index=list(alternatives_names.values()), columns=list(alternatives_names.values()))
+""")
+    ok = b is not None and m_node(_parse('{_A: _K for _K, _A in enumerate(self.choice_set)}')[0].value, b['__INDEX'][1], {})
     ctx.add('C17.R4', 'NestsForNestedLogit.correlation', ok, cr, '1 - mu^2/mu_m^2 for every pair inside a nest, symmetric, identity elsewhere, positions from the choice set' if ok else 'the correlation formula of the nested logit changed', 'corr')
 
 
